@@ -18,6 +18,11 @@
     pyparsing/core.py:2620-2624    Keyword.set_default_keyword_chars
     pyparsing/testing.py:47-127    reset_pyparsing_context.save / restore / __enter__ / __exit__
 
+  Every setting is ONE class attribute of the base class (`ParserElement.X`, `Keyword.DEFAULT_KEYWORD_CHARS`): the
+  setters are staticmethods that name the base class in the assignment, so the class or instance through which a
+  setter is called (the `route` parameter of the operations) does not enter; `State.shadows` lists the subclasses
+  that have an *own* entry for a setting attribute (none after import; no modelled setter creates one).
+
   Object identity of `packrat_cache` / `recursion_memos` is modelled by an allocation number
   (`id`, taken from the counter `gen`).  Cache *contents* are not modelled (they are not settings).
   Core Lean only (linked into the driver).
@@ -97,6 +102,10 @@ structure State where
   builtins : List Expr          -- core._builtin_exprs
   users : List Expr             -- user-created expressions (in creation order)
   gen : Nat                     -- allocation counter for cache / memo objects
+  shadows : List (String × String) := []
+                                -- (class, attribute): strict subclasses of ParserElement (of Keyword for
+                                -- DEFAULT_KEYWORD_CHARS) with an own `__dict__` entry for a setting attribute;
+                                -- such an entry would hide the base class's cell from that class and below
   deriving DecidableEq, Repr, Inhabited
 
 /-! ### Python `set(chars)` in canonical form -/
@@ -241,14 +250,17 @@ def modifyNth {α} (f : α → α) : Nat → List α → List α
 /-- every public way of changing a setting (plus the three expression operations that interact
     with the default whitespace setting) -/
 inductive Op where
-  | setDefaultWs (chars : String)                     -- ParserElement.set_default_whitespace_chars
-  | setKwChars (chars : String)                       -- Keyword.set_default_keyword_chars
-  | inlineLiterals (cls : Nat)                        -- ParserElement.inline_literals_using / inlineLiteralsUsing
+  -- `route`: through which class / instance / synonym the (static) setter is called, e.g.
+  -- `CaselessKeyword.set_default_keyword_chars`, `Word("x").set_default_whitespace_chars`; index into the
+  -- harness's route tables. The transcribed setters do not mention it.
+  | setDefaultWs (chars : String) (route : Nat)       -- ParserElement.set_default_whitespace_chars
+  | setKwChars (chars : String) (route : Nat)         -- Keyword.set_default_keyword_chars
+  | inlineLiterals (cls : Nat) (route : Nat)          -- ParserElement.inline_literals_using / inlineLiteralsUsing
   | setVerbose (b : Bool)                             -- ParserElement.verbose_stacktrace = b
-  | enablePackrat (size : Option Int) (force : Bool)  -- ParserElement.enable_packrat
-  | enableLR (cap : Option Int) (force : Bool)        -- ParserElement.enable_left_recursion
-  | disableMemo                                       -- ParserElement.disable_memoization
-  | resetCache                                        -- ParserElement.reset_cache
+  | enablePackrat (size : Option Int) (force : Bool) (route : Nat)  -- ParserElement.enable_packrat
+  | enableLR (cap : Option Int) (force : Bool) (route : Nat)        -- ParserElement.enable_left_recursion
+  | disableMemo (route : Nat)                         -- ParserElement.disable_memoization
+  | resetCache (route : Nat)                          -- ParserElement.reset_cache
   | diagSet (name : String) (v : Bool)                -- __diag__.enable/disable, enable_diag/disable_diag
   | enableAllWarnings                                 -- enable_all_warnings()
   | compatSet (name : String) (v : Bool)              -- __compat__.enable/disable
@@ -264,16 +276,27 @@ inductive Op where
   | newAlt (i : Nat)                                  -- MatchFirst([users[i], Literal]) / Or([users[i], Literal])
   deriving DecidableEq, Repr, Inhabited
 
+/-- the same call through another route -/
+def Op.withRoute (r : Nat) : Op → Op
+  | .setDefaultWs c _ => .setDefaultWs c r
+  | .setKwChars c _ => .setKwChars c r
+  | .inlineLiterals c _ => .inlineLiterals c r
+  | .enablePackrat sz f _ => .enablePackrat sz f r
+  | .enableLR cap f _ => .enableLR cap f r
+  | .disableMemo _ => .disableMemo r
+  | .resetCache _ => .resetCache r
+  | o => o
+
 def stepOp (cfg : Cfg) (o : Op) (s : State) : State × Option Err :=
   match o with
-  | .setDefaultWs c => (setDefaultWs c s, none)
-  | .setKwChars c => (setKwChars c s, none)
-  | .inlineLiterals c => (inlineLiterals c s, none)
+  | .setDefaultWs c _ => (setDefaultWs c s, none)
+  | .setKwChars c _ => (setKwChars c s, none)
+  | .inlineLiterals c _ => (inlineLiterals c s, none)
   | .setVerbose b => ({ s with verbose := b }, none)
-  | .enablePackrat sz f => enablePackrat sz f s
-  | .enableLR cap f => enableLR cap f s
-  | .disableMemo => (disableMemo s, none)
-  | .resetCache => (resetCache s, none)
+  | .enablePackrat sz f _ => enablePackrat sz f s
+  | .enableLR cap f _ => enableLR cap f s
+  | .disableMemo _ => (disableMemo s, none)
+  | .resetCache _ => (resetCache s, none)
   | .diagSet n v =>
     let r := cfgSet cfg.diagFixed cfg.diagAll n v s.diag
     ({ s with diag := r.1 }, r.2)
@@ -489,13 +512,19 @@ def obs (s : State) : Obs :=
     diag := s.diag
     compat := s.compat }
 
+/-- the settings as read through class `cls` (`getattr(cls, attr)` for each setting attribute): the one cell of
+    the base class — unless `cls` has an own entry for some setting attribute (then what it sees is not
+    determined by the settings: `none`) -/
+def classView (cls : String) (s : State) : Option Obs :=
+  if s.shadows.any (fun p => p.1 == cls) then none else some (obs s)
+
 /-- the pristine state right after `import pyparsing`, for given class data and built-ins -/
-def initState (cfg : Cfg) (ws kw : String) (builtins : List Expr) : State :=
+def initState (cfg : Cfg) (ws kw : String) (builtins : List Expr) (shadows : List (String × String) := []) : State :=
   { defaultWs := ws, kwChars := kw, litCls := 0, verbose := false
     packratEnabled := false, cache := ⟨0, .null⟩, parseSel := .noCache
     lrEnabled := false, memo := ⟨1, .dict⟩
     diag := cfg.diagAll.map (fun n => (n, false))
     compat := cfg.compatAll.map (fun n => (n, true))
-    builtins := builtins, users := [], gen := 2 }
+    builtins := builtins, users := [], gen := 2, shadows := shadows }
 
 end PP.Settings
